@@ -206,8 +206,13 @@ func runCheck(o checkOpts) checkResult {
 	byName := map[string]*OblResult{}
 	var order []string
 	vacuous := []*Query{}
+	groupAll := map[string][]*Query{}
 	for _, q := range queries {
 		if q.Canary {
+			if q.AnyOf != "" {
+				groupAll[q.Obl] = append(groupAll[q.Obl], q)
+				continue
+			}
 			if q.Status == "unsat" {
 				vacuous = append(vacuous, q)
 			}
@@ -227,6 +232,17 @@ func runCheck(o checkOpts) checkResult {
 		if q.Status != "unsat" {
 			r.Status = "failed"
 			r.failing = append(r.failing, q)
+		}
+	}
+	for _, g := range groupAll {
+		all := true
+		for _, q := range g {
+			if q.Status != "unsat" {
+				all = false
+			}
+		}
+		if all && len(g) > 0 {
+			vacuous = append(vacuous, g[0])
 		}
 	}
 	sort.Strings(order)
